@@ -110,6 +110,10 @@ fn scripts() -> Vec<(&'static str, String)> {
         ("exit-i32-max", "exit 2147483647"),
         ("exit-i32-min", "exit -2147483648"),
         ("exit-257", "exit 257"),
+        ("blank-only", "   \n\n"),
+        ("label-only", ":just_a_label"),
+        ("crash-in-function", "fn f\nnosuch\nend\necho a\nf\necho b"),
+        ("error-in-included-missing", "echo a\n!include_files ./nope/none.ds\necho b"),
     ];
     v.into_iter().map(|(n, s)| (n, s.to_string())).collect()
 }
@@ -201,6 +205,28 @@ pub fn worker(w: &mut Worker) {
                 }
                 Err((s, what)) => w.fail(&s, &what, cj),
             }
+        }
+    }
+    // a script file that does not exist
+    for form in ["file"] {
+        if !w.take() {
+            continue;
+        }
+        let cj = json!({"kind": "run", "name": "missing-script-file", "form": form, "script": ""});
+        w.begin(|| cj.clone());
+        let missing = dir.join("no such script.ds").to_string_lossy().to_string();
+        match (run_proc(&duck, &[&missing], &dir), run_proc(&me, &["libref", "file", &missing], &dir)) {
+            (Ok(d), Ok(l)) => {
+                w.add_transitions(2);
+                if d.code == Some(0) || l.code == Some(0) {
+                    w.fail("missing-script-file:status", &format!("duck {:?} library {:?}", d.code, l.code), cj);
+                } else if d.stdout != format!("{}Error: {}\n", l.stdout, l.stderr) {
+                    w.fail("missing-script-file:output", &format!("duck printed {:?}, library error {:?}", d.stdout, l.stderr), cj);
+                } else {
+                    w.pass(true, hash64(&"missing-file"));
+                }
+            }
+            (a, b) => w.fail("harness:spawn", &format!("{:?} {:?}", a.err(), b.err()), cj),
         }
     }
     // lint grid
@@ -329,7 +355,7 @@ pub fn crash_sig(_case: &Value, kind: &str) -> String {
     kind.to_string()
 }
 
-pub const RULE: &str = "50 scripts (succeeding, printing, failing by crash / unknown command / missing label / assert, exit with no value, 0, 3, -1, 255, 256, 257, 512, -256, 65536, i32::MAX, i32::MIN, abc, ' 3', a value beyond i32, every parse error kind, pre-processor print and missing include, exit_on_error at top level, in a function and inside a script-implemented command) x invocation form {file argument, -e text, --eval text}: the duck executable built from /repo's working tree is run as a subprocess and compared with the library run by the harness in a second subprocess (default Env): exit status 0 exactly when the library run succeeds; stdout equals the library's stdout, followed on failure by 'Error: <display of the library error>'. Lint: label x command x output each in {absent, lower-case, Capitalised, mIxed_1, non-ASCII upper-case} x {parsable, with an unparsable later line} x {-l, --lint}: accepted exactly when the file parses and the three spellings are lower-case, never runs the script, prints 'Error:' on rejection. --version, --help, -h: exit 0 and the documented content";
+pub const RULE: &str = "54 scripts (succeeding, printing, failing by crash / unknown command / missing label / assert, exit with no value, 0, 3, -1, 255, 256, 257, 512, -256, 65536, i32::MAX, i32::MIN, abc, ' 3', a value beyond i32, every parse error kind, pre-processor print and missing include, exit_on_error at top level, in a function and inside a script-implemented command) x invocation form {file argument, -e text, --eval text}: the duck executable built from /repo's working tree is run as a subprocess and compared with the library run by the harness in a second subprocess (default Env): exit status 0 exactly when the library run succeeds; stdout equals the library's stdout, followed on failure by 'Error: <display of the library error>'. Lint: label x command x output each in {absent, lower-case, Capitalised, mIxed_1, non-ASCII upper-case} x {parsable, with an unparsable later line} x {-l, --lint}: accepted exactly when the file parses and the three spellings are lower-case, never runs the script, prints 'Error:' on rejection. --version, --help, -h: exit 0 and the documented content";
 pub const ASSUMPTIONS: &[&str] = &["scripts with time- or random-dependent output are not in the pool", "the reference is the same library linked into the harness (differential), so a defect shared by both is invisible here"];
 pub const EXHAUSTIVE: bool = true;
 pub const WALL_CAP_S: (u64, u64) = (58, 600);
